@@ -46,6 +46,10 @@ def scalars_case(ctx, idx, rng):
     if idx % 5 == 4:
         chi = psi                  # the SAME object as bra and ket (vdot(psi, psi), operator_inner_product(psi, H, psi))
         src = src + '+bra-is-ket'
+    elif idx % 5 == 3:
+        # the bra SHARES most site tensors by reference with the ket (correlator-type bra built from list(psi.A) with one or two sites replaced)
+        chi, rep = gen.partially_shared_mps(rng, psi)
+        src = src + '+bra-shares-tensors'
     vp, vc, mH = refs.dense_state(psi.A), refs.dense_state(chi.A), refs.dense_operator(H.A)
     ctx.case(('scalars', f'L{L}', f'd{d}', src, 'real-ket' if not np.iscomplexobj(psi.A[0]) else 'complex-ket'),
              sample={'qd': qd, 'qD_psi': psi.qD, 'qD_chi': chi.qD, 'qD_H': H.qD})
